@@ -84,19 +84,27 @@ Neighbors neighbours_of(Setup& s, const Case& c, bool kernel_based)
 // ------------------------------------------------------------------------------------------------ C05
 void check_factor(const Mat& Y, const Mat& B, const Spectrum& sp, int td, Result& r, const std::string& tag, bool randomized)
 {
+    // "best rank-td positive semi-definite approximation": eigenvalues that are not positive contribute nothing, so the
+    // expected squared column norms are max(lambda_i, 0) and the expected Gram matrix is sum_i max(lambda_i,0) u_i u_i^T
     double l1 = std::max(std::fabs(sp.vals(0)), std::fabs(sp.vals(sp.vals.size() - 1)));
-    if (!(sp.vals(td - 1) > 1e-9 * l1))
+    if (!(sp.vals(0) > 1e-9 * l1))
     {
-        r.inconclusive.push_back("a retained reference eigenvalue is not positive (outside the statement)");
+        r.inconclusive.push_back("no positive eigenvalue at all");
         return;
     }
     if (!Y.allFinite())
     {
-        r.violation(tag + ":nonfinite", "non-finite embedding although all retained eigenvalues are positive");
+        r.violation(tag + ":nonfinite", "non-finite embedding");
         return;
     }
+    int npos = 0; // retained eigenvalues that are clearly positive
+    for (int j = 0; j < td; ++j)
+        if (sp.vals(j) > 1e-9 * l1)
+            ++npos;
+    bool clamped = npos < td;
+    if (clamped)
+        r.tags.push_back("retained-nonpositive-eigenvalue");
     double tol_eig = randomized ? 1e-6 : 1e-9;
-    // residual: every column is an eigenvector with eigenvalue |y|^2
     Mat G = Y.transpose() * Y;
     double worst_res = 0;
     std::vector<double> norms;
@@ -104,37 +112,42 @@ void check_factor(const Mat& Y, const Mat& B, const Spectrum& sp, int td, Result
     {
         double lam = G(j, j);
         norms.push_back(lam);
+        if (lam <= 1e-9 * l1)
+            continue; // a (numerically) zero column belongs to a clamped eigenvalue
         double res = (B * Y.col(j) - lam * Y.col(j)).norm() / (l1 * std::max(1e-300, Y.col(j).norm()));
         worst_res = std::max(worst_res, res);
     }
     r.maxnum(tag + "_residual", worst_res);
     if (worst_res > (randomized ? 1e-5 : 1e-8))
         r.violation(tag + ":not-eigenvectors", sf("||B y - |y|^2 y|| / (|B| |y|) = %.3g", worst_res));
-    // orthogonality
     double off = 0;
     for (int i = 0; i < td; ++i)
         for (int j = 0; j < td; ++j)
             if (i != j)
                 off = std::max(off, std::fabs(G(i, j)) / l1);
     r.maxnum(tag + "_offdiag", off);
-    double gap = rel_gap_desc(sp.vals, td);
-    // (columns inside a degenerate eigenspace may be any orthogonal basis of it; orthogonality itself is still required)
     if (off > tol_eig * 10)
         r.violation(tag + ":columns-not-orthogonal", sf("max |y_i . y_j| / lambda_1 = %.3g", off));
-    // squared norms = retained eigenvalues (as a multiset)
     std::sort(norms.begin(), norms.end(), std::greater<double>());
     double worst = 0;
     for (int j = 0; j < td; ++j)
-        worst = std::max(worst, std::fabs(norms[j] - sp.vals(j)) / l1);
+        worst = std::max(worst, std::fabs(norms[j] - std::max(0.0, sp.vals(j))) / l1);
     r.maxnum(tag + "_eigenvalue_dev", worst);
     if (worst > tol_eig)
-        r.violation(tag + ":squared-norms-not-top-eigenvalues", sf("max deviation %.3g of lambda_1 (td=%d)", worst, td));
-    SubspaceVerdict v = check_gram_topd(Y, sp, td);
-    r.maxnum(tag + "_gram_err", v.err);
-    if (!v.conclusive)
+        r.violation(tag + ":squared-norms-not-top-eigenvalues",
+                    sf("max deviation %.3g of lambda_1 from max(lambda_i, 0) (td=%d, %d retained eigenvalues positive)", worst, td, npos));
+    // Gram matrix vs the clamped truncation; the relevant gap is below the last positive retained eigenvalue
+    int cut = std::max(1, npos);
+    double gap = clamped ? (sp.vals(cut - 1) - std::max(0.0, cut < sp.vals.size() ? sp.vals(cut) : 0.0)) / l1 : rel_gap_desc(sp.vals, td);
+    Mat U = sp.vecs.leftCols(cut);
+    Vec l = sp.vals.head(cut).cwiseMax(0.0);
+    Mat Bd = U * l.asDiagonal() * U.transpose();
+    double err = (Y * Y.transpose() - Bd).norm() / std::max(Bd.norm(), 1e-300);
+    r.maxnum(tag + "_gram_err", err);
+    if (gap < 1e-6)
         r.inconclusive.push_back("eigen-gap at the cut below 1e-6: leading eigenspace not unique");
-    else if (v.err > (randomized ? 1e-5 / gap : v.tol))
-        r.violation(tag + ":gram-not-best-rank-d", sf("||YY^T - B_d||/||B_d|| = %.3g (gap %.3g)", v.err, v.gap));
+    else if (err > (randomized ? 1e-5 : 1e-9) / gap)
+        r.violation(tag + ":gram-not-best-rank-d-psd", sf("||YY^T - B_d^+||/||B_d^+|| = %.3g (gap %.3g, %d of %d retained eigenvalues positive)", err, gap, npos, td));
 }
 
 void run_mds(const Case& c, Result& r)
@@ -165,8 +178,7 @@ void run_mds(const Case& c, Result& r)
         r.inconclusive.push_back("randomized solver on input of rank > td");
         return;
     }
-    if (rank >= s.td)
-        check_factor(Y, B, sp, s.td, r, m, randomized);
+    check_factor(Y, B, sp, s.td, r, m, randomized);
     // Euclidean-realisable input of dimension <= td: all pairwise distances reproduced
     if (m != "kpca" && c.s("dist", "l2") == "l2" && rank <= s.td)
     {
@@ -849,6 +861,16 @@ void run_lin(const Case& c, Result& r)
     Setup s(c);
     std::string m = c.s("method");
     LinearProblem lp = linear_problem(s, c, m);
+    // conditioning of the pencil first: for a width far below the squared neighbour distances heat weights underflow, samples
+    // lose all their edges and B = X D X^T is singular (the problem is then undefined whatever the implementation does)
+    Eigen::SelfAdjointEigenSolver<Mat> eb0(0.5 * (lp.B + lp.B.transpose()));
+    double condB0 = eb0.eigenvalues().maxCoeff() / std::max(1e-300, eb0.eigenvalues().minCoeff());
+    if (!(eb0.eigenvalues().minCoeff() > 0) || !(condB0 < 1e8) || !lp.A.allFinite() || !lp.B.allFinite())
+    {
+        r.inconclusive.push_back("right-hand side matrix singular or ill-conditioned");
+        r.num["condB"] = condB0;
+        return;
+    }
     Spectrum sp = gen_eig_asc(lp.A, lp.B);
     Outcome o = call(s, c);
     if (!expect_ok(o, r, m, s.N, s.td))
